@@ -61,6 +61,7 @@ prop("C04", "Counter loops run the body exactly for Go's counter sequence", [
 
 prop("C05", "Range loops visit every element once, in order, with key and value bound", [
     ("binds_key_and_value", "vloop_binds_key_and_value", "vector arrays: in every iteration k reads the element's index and v the element"),
+    ("entered_iterations_are_a_prefix", "vloop_entries_are_a_prefix", "UNCONDITIONAL: whatever the bodies do (break, continue, fail, leave a break depth pending), the iterations entered are those of elements i, i+1, ..., i+m-1 for some m: in order, each element at most once, no gaps, each with its own element"),
     ("visits_all_in_order", "vloop_visits_all", "without break/failure the body runs exactly once per element, in element order"),
     ("absent_source_zero_iterations", "rloop_absent", "an absent source gives zero iterations and no error"),
     ("unknown_variable_zero_iterations", "rloop_unknown_var", "so does an unknown variable"),
